@@ -522,6 +522,9 @@ func (e *Engine) callsUnderLock(fn *ssa.Function, keep func(key string) bool) []
 // reachesEval: can the call reach the evaluator (EVAL / types.Apply / a Func.Fn / any function value)?
 func (w *World) reachesEval(ci ssa.CallInstruction) (bool, string) {
 	c := ci.Common()
+	if _, isBuiltin := c.Value.(*ssa.Builtin); isBuiltin {
+		return false, "" // append, len, copy … do not call anything
+	}
 	evalFn, applyFn := w.Fn("", "EVAL"), w.Fn("types", "Apply")
 	var roots []*ssa.Function
 	if sc := c.StaticCallee(); sc != nil {
